@@ -3,6 +3,7 @@
 From Coq Require Import List String ZArith Bool.
 From GG Require Import Base.Strs Model.Config Model.GoTypes Model.GoAst Model.Annots Model.Analyze Exec
                        Proofs.WalkProofs Proofs.CheckerProofs.
+From GG Require Proofs.DiagProofs Proofs.WholeProofs.
 Import ListNotations.
 Local Open Scope Z_scope.
 Local Open Scope string_scope.
@@ -29,6 +30,24 @@ Theorem C01_reported_iff :
 Proof.
   intros cfg p fs sup pos code Hwf. unfold x_imm. apply imm_diags_spec.
   intros f d Hf Hd. apply (Hwf f d); [|exact Hd]. unfold kept_files in Hf. apply filter_In in Hf. tauto.
+Qed.
+
+(* (1') END TO END.  In the result of the WHOLE per-package analysis (annotation reader, @ignore reader, IgnoreSet, all five
+   checkers), the diagnostics with an IMM code are exactly those of (1) under the facts the analysis assembles itself - the
+   package's own annotations followed by those of its direct imports - and the suppression its own @ignore comments and
+   exclude-checks give *)
+Theorem C01_whole_analysis :
+  forall cfg p all own ds pos code, wf p -> x_analyze cfg p all = AOk own ds -> In code DiagProofs.IMM_CODES ->
+    exists ops, x_ignore_ops cfg p = Some ops /\ own = x_read_all cfg p /\
+      (reported ds pos code <->
+       exists f d n, In f (kept_files cfg p) /\ In d (f_decls f) /\ In n (preorder d) /\
+                     imm_reports (x_facts p own all) (p_path p) (imm_ctx d) n pos code /\ x_suppressed ops code pos = false).
+Proof.
+  intros cfg p all own ds pos code Hwf Hres Hc.
+  destruct (WholeProofs.section_of_code cfg p all own ds Hres) as (ops & Ho & Hown & Hsec). exists ops. split; [exact Ho|]. split; [exact Hown|].
+  rewrite <- (C01_reported_iff cfg p (x_facts p own all) (x_suppressed ops) pos code Hwf).
+  unfold reported. split; intros (d & Hd & Hp & Hcode); exists d; (split; [|split; assumption]);
+    destruct (Hsec d) as (_ & Himm & _); apply Himm; try assumption; rewrite Hcode; exact Hc.
 Qed.
 
 (* (2) what "writes an immutable field outside the exemptions" means *)
@@ -97,3 +116,4 @@ Print Assumptions C01_constructor_index.
 Print Assumptions C01_mutable_index.
 Print Assumptions C01_only_writes.
 Print Assumptions C01_walk.
+Print Assumptions C01_whole_analysis.
